@@ -33,6 +33,9 @@ META = dict(
 OBLIGATIONS = [
     "C01_never_stale", "C01_never_stale_full_reverts", "C01_unset_is_error", "C01_read_is_scratch", "C01_unforked_set_drops_fork",
     "C01_get_transparent", "C01_clone_isolated", "C01_clone_copies", "C01_examples",
+    # histories with scoped fork-mode switches, `with state.auto_fork(m): ...` (State/StateScoped.v)
+    "C01_never_stale_scoped", "C01_scoped_reads_are_scratch", "C01_scoped_is_history", "C01_scoped_restores_mode",
+    "C01_scoped_later_history", "C01_scoped_examples",
 ]
 
 # The model variant the theorems of Props/C01.v are about (State/StateNow.v): True = State.__setitem__ as it is since 27ac519
@@ -57,6 +60,21 @@ def checker():
 HEADER = ("From Coq Require Import ZArith List Bool.\nFrom Leaspy Require Import State.StateModel State.StateExec.\n"
           "Import ListNotations.\nOpen Scope Z_scope.\nOpen Scope nat_scope.\n")
 CASE_TYPE = "list nspec * list (xop * out xval * bool)"
+# histories with scoped blocks / looks: the trace of State/StateScoped.v compared entry by entry (StateScopedExec.check_scase_with)
+SHEADER = ("From Coq Require Import ZArith List Bool.\nFrom Leaspy Require Import State.StateModel State.StateExec State.StateScoped "
+           "State.StateScopedExec.\nImport ListNotations.\nOpen Scope Z_scope.\nOpen Scope nat_scope.\n")
+SCASE_TYPE = "list nspec * list xsop * list (xobs * bool)"
+SCOPE_SIG = "auto-fork-scope:mode-not-restored"
+SCOPE_DIFF_SIG = "auto-fork-scope:differs-from-documented-scoping"
+ALIAS_SIG = "clone:shares-storage-with-source"
+
+
+def schecker():
+    return f"(check_scase_with {SEM[MIX]} {'true' if FX else 'false'})"
+
+
+def is_scoped(s):
+    return any(op[0] in ("scoped", "look") for op, _, _ in s.records)
 
 F1_SIG = "fork-mode-switch-stale-revert"
 
@@ -133,8 +151,26 @@ def classify(run: Run, G, sess, what_prefix=""):
 
 
 def correspond(run: Run, name, sessions, metas):
-    cases = [s.coq_case() for s in sessions]
-    bad = run.vm_bad_indices(name, HEADER, CASE_TYPE, cases, checker(), shard=150)
+    """plain histories through `check_case_with`, histories with scoped blocks / looks through `check_scase_with`"""
+    plain = [i for i, s in enumerate(sessions) if not is_scoped(s)]
+    scoped = [i for i, s in enumerate(sessions) if is_scoped(s)]
+    bad = []
+    if plain:
+        b = _correspond(run, name, [sessions[i] for i in plain], [metas[i] for i in plain], False)
+        bad += [plain[j] for j in (b or [])]
+    if scoped:
+        b = _correspond(run, name + "_scoped", [sessions[i] for i in scoped], [metas[i] for i in scoped], True)
+        bad += [scoped[j] for j in (b or [])]
+    return sorted(bad)
+
+
+def _correspond(run: Run, name, sessions, metas, scoped):
+    if scoped:
+        cases = [s.coq_scase() for s in sessions]
+        bad = run.vm_bad_indices(name, SHEADER, SCASE_TYPE, cases, schecker(), shard=150)
+    else:
+        cases = [s.coq_case() for s in sessions]
+        bad = run.vm_bad_indices(name, HEADER, CASE_TYPE, cases, checker(), shard=150)
     # localise the first disagreeing operation on the shortest disagreeing histories only (each bisection step is a coqc call)
     todo = sorted(bad or [], key=lambda i: len(sessions[i].records))
     if len(todo) > 6:
@@ -148,7 +184,10 @@ def correspond(run: Run, name, sessions, metas):
 
         def prefix_bad(n):
             s2 = T.run_ops(G, ops[:n], fx=FX, oracle=False)
-            r = run.vm_bad_indices(name + "_loc", HEADER, CASE_TYPE, [s2.coq_case()], checker())
+            if scoped:
+                r = run.vm_bad_indices(name + "_loc", SHEADER, SCASE_TYPE, [s2.coq_scase()], schecker())
+            else:
+                r = run.vm_bad_indices(name + "_loc", HEADER, CASE_TYPE, [s2.coq_case()], checker())
             return bool(r)
         while lo < hi:
             mid = (lo + hi) // 2
@@ -158,7 +197,8 @@ def correspond(run: Run, name, sessions, metas):
                 lo = mid + 1
         op, out, ok = s.records[lo - 1]
         run.fail(f"model-vs-code:{op[0]}", "the State implementation and the Coq model of state.py disagree on the result of an operation "
-                 "(or on the cache contents / the discipline flag): the theorems no longer speak about this code",
+                 "(or on the cache contents / the discipline flag" + (" / auto_fork_type and _last_fork observed inside and after a "
+                 "`with state.auto_fork(..)` block" if scoped else "") + "): the theorems no longer speak about this code",
                  dict(graph=G.to_json(), ops=ops[:lo], **metas[i]), expected="result computed by the model (see coq/tmp)",
                  observed=dict(op=op, out=out, disciplined=ok), kind="broken-correspondence")
     return bad
@@ -176,7 +216,7 @@ def count_f1_shape(run: Run, s, acc):
         acc["histories_with_read_after_that_revert"] += 1
     for e in s.f1_events:
         if e["kind"] == "revert-after":
-            op = s.records[e["step"]][0][0]
+            op = e["op"]
             out = e["out"]
             key = f"{op} -> " + (out[0] if out[0] != "err" else "err:" + out[1])
             acc["revert_outcomes"][key] = acc["revert_outcomes"].get(key, 0) + 1
@@ -185,10 +225,105 @@ def count_f1_shape(run: Run, s, acc):
             acc["reads_after_that_revert"] += 1
 
 
+def scoped_oracle(run: Run, G, s, sc):
+    """Implementation-side oracles for `with state.auto_fork(m)` blocks (no Coq involved):
+    (1) after a block — left normally or by an exception — `auto_fork_type` is what it was before the block (white box);
+    (2) the whole history gives, event by event (results, reads, reverts accepted or refused, auto_fork_type, _last_fork), what it
+        gives when every block is executed by the documented contract written out (set the mode; finally: put the previous one back);
+    (3) a clone shares no dictionary and no tensor object with its source."""
+    ops = [r[0] for r in s.records]
+    if s.alias_violations:
+        a = s.alias_violations[0]
+        prefix = ops[: a["step"] + 1]
+        small = T.shrink(G, prefix, lambda c: bool(T.run_ops(G, c, fx=FX, oracle=False).alias_violations))
+        a2 = T.run_ops(G, small, fx=FX, oracle=False).alias_violations[0]
+        run.count("oracle", ALIAS_SIG)
+        run.fail(ALIAS_SIG, "State.clone returns a state that shares mutable storage with its source (the model's states are values: "
+                 "C01_clone_isolated does not transfer to states that alias each other)",
+                 dict(graph=G.to_json(), ops=small), expected="no shared dictionary / tensor object", observed=a2["shared"],
+                 kind="broken-correspondence")
+    if not s.has_scoped:
+        return
+    sc["histories_with_blocks"] += 1
+    pending_exc, reverted = set(), set()
+
+    def walk(records, depth):
+        for op, out, ok in records:
+            if op[0] == "scoped":
+                sc["blocks"] += 1
+                sc["nested_blocks"] += depth > 0
+                if out[1]:
+                    sc["blocks_left_by_an_exception"] += 1
+                    if depth == 0 and op[1] < len(s.states):
+                        pending_exc.add(op[1])
+                walk(out[2], depth + 1)
+            elif depth == 0 and op[0] in ("revert", "revmask") and op[1] in pending_exc:
+                sc["reverts_after_a_block_left_by_an_exception"] += 1
+                pending_exc.discard(op[1])
+                reverted.add(op[1])
+            elif depth == 0 and op[0] == "get" and op[1] in reverted:
+                sc["reads_after_those_reverts"] += 1
+    walk(s.records, 0)
+    # on entry of each block: was a fork pending, and what was the mode before the block
+    for b in s.block_entries:
+        sc["blocks_entered_with_a_fork_pending"] += b["fork_pending"]
+        sc["blocks_whose_previous_mode_is_not_REF"] += b["previous"] != "REF"
+    if s.scope_violations:
+        v = s.scope_violations[0]
+        prefix = ops[: v["step"] + 1]
+        small = T.shrink(G, prefix, lambda c: bool(T.run_ops(G, c, fx=FX, oracle=False).scope_violations))
+        v2 = T.run_ops(G, small, fx=FX, oracle=False).scope_violations[0]
+        run.count("oracle", SCOPE_SIG)
+        run.fail(SCOPE_SIG, "after `with state.auto_fork(m)` the state does not have its previous auto_fork_type again"
+                 + (" (the block was left by an exception that the caller caught)" if v2["raised"] else ""),
+                 dict(graph=G.to_json(), ops=small, state=v2["state"]), expected=dict(auto_fork_type=v2["expected"]),
+                 observed=dict(auto_fork_type=v2["observed"]))
+    ref = T.run_ops(G, ops, fx=FX, oracle=False, scope="reference")
+    if ref.events != s.events:
+        def differs(c):
+            a = T.run_ops(G, c, fx=FX, oracle=False)
+            b = T.run_ops(G, c, fx=FX, oracle=False, scope="reference")
+            return first_result_difference(a, b) is not None
+        d = first_result_difference(s, ref)
+        if d is None:       # only the bookkeeping differs (reported above when it is the mode after a block)
+            run.count("oracle", "scoped: bookkeeping differs from the documented scoping, no result does")
+            if not s.scope_violations:
+                run.fail(SCOPE_DIFF_SIG, "a history with `with state.auto_fork(m)` blocks leaves auto_fork_type / _last_fork different from "
+                         "what the documented scoping (mode set for the body, previous mode put back afterwards) leaves",
+                         dict(graph=G.to_json(), ops=ops), expected="same bookkeeping", observed="see replay")
+            return
+        small = T.shrink(G, ops[: d["step"] + 1], differs) if len(ops) <= 60 else ops[: d["step"] + 1]
+        a = T.run_ops(G, small, fx=FX, oracle=False)
+        b = T.run_ops(G, small, fx=FX, oracle=False, scope="reference")
+        d2 = first_result_difference(a, b) or d
+        run.count("oracle", SCOPE_DIFF_SIG)
+        run.fail(SCOPE_DIFF_SIG, "after an exception left a `with state.auto_fork(m)` block (and was caught), the history no longer "
+                 "returns what it returns under the documented scoping of the mode switch: a later revert is refused / accepted "
+                 "differently and the values read afterwards are those of other independent values (the fork bookkeeping of the "
+                 "samplers' proposals is silently switched)",
+                 dict(graph=G.to_json(), ops=small), expected=d2["expected"], observed=d2["observed"])
+
+
+def first_result_difference(a, b):
+    """first event whose RESULT (not the bookkeeping) differs between two executions of the same history"""
+    for i, ((oa, _), (ob, _)) in enumerate(zip(a.events, b.events)):
+        if oa[0] == "out" and ob[0] == "out" and oa != ob:
+            return dict(event=i, step=a.event_steps[i], expected=dict(op=ob[1], out=list(ob[2])), observed=dict(op=oa[1], out=list(oa[2])))
+        if oa[0] != ob[0] or (oa[0] == "out" and oa[1] != ob[1]):
+            return dict(event=i, step=a.event_steps[i], expected=list(ob), observed=list(oa))
+    if len(a.events) != len(b.events):
+        i = min(len(a.events), len(b.events))
+        return dict(event=i, step=len(a.records) - 1, expected=f"{len(b.events)} events", observed=f"{len(a.events)} events")
+    return None
+
+
 def toy_histories(run: Run, n_hist):
     sessions, metas = [], []
     f1 = dict(histories_with_unforked_assignment_over_pending_fork=0, histories_with_revert_after_it=0,
               histories_with_read_after_that_revert=0, reads_after_that_revert=0, revert_outcomes={})
+    sc = dict(histories_with_blocks=0, blocks=0, blocks_left_by_an_exception=0, nested_blocks=0,
+              blocks_entered_with_a_fork_pending=0, reverts_after_a_block_left_by_an_exception=0, reads_after_those_reverts=0,
+              blocks_whose_previous_mode_is_not_REF=0)
     for h in range(n_hist):
         rng = run.rng("toy", h)
         malformed = rng.random() < 0.3
@@ -213,11 +348,12 @@ def toy_histories(run: Run, n_hist):
         run.count("graph_nodes", len(G.order))
         run.count("n_states", len(s.states))
         run.count("history_len", (len(ops) // 10) * 10)
-        for op, out, ok in s.records:
+        for op, out, ok in T.flat_records(s.records):
             run.count("op", op[0])
             run.count("result", out[0] if out[0] != "err" else "err:" + out[1])
             if not ok:
                 run.count("undisciplined_op", op[0])
+        scoped_oracle(run, G, s, sc)
         for nd in G.nodes:
             run.count("node_kind", nd["kind"] if nd["kind"] != "linked" else "linked:" + nd["fun"][0])
         classify(run, G, s)
@@ -226,6 +362,13 @@ def toy_histories(run: Run, n_hist):
     f1["note"] = ("legal since 27ac519: the revert must be refused with the input error 'no fork to revert from' (err:input) and every "
                   "later read must be fresh; before 27ac519 the revert succeeded (done) and restored a stale undo log")
     run.extra["f1_shaped_toy_histories"] = f1
+    sc["note"] = ("every block is executed through the real context manager `with state.auto_fork(m)`; the exception of the first failing "
+                  "operation of the body leaves the block(s) and is caught by the harness; auto_fork_type and _last_fork are recorded "
+                  "just inside and just after every block and compared with the model inside Coq")
+    run.extra["scoped_toy_histories"] = sc
+    if sc["reads_after_those_reverts"] < max(5, n_hist // 100) or sc["blocks_whose_previous_mode_is_not_REF"] < max(5, n_hist // 100):
+        run.broken("generator:scoped-shape", f"the toy-history generator produced too few scoped blocks left by an exception and followed by "
+                   f"a revert and reads: {sc}", kind="broken-correspondence")
     if FX == CLAIMED_FX and f1["histories_with_read_after_that_revert"] < max(5, n_hist // 100):
         run.broken("generator:f1-shape", f"the toy-history generator produced too few histories of the F1 shape: {f1}", kind="broken-correspondence")
     correspond(run, "toy", sessions, metas)
